@@ -311,6 +311,20 @@ Rewrites(ns) ==
            SetAt(SetAt(ns, DefOf(ns, i), [ns[DefOf(ns, i)] EXCEPT !.vdefs = Append(@, [name |-> "bad", type |-> ty, hasDefault |-> FALSE, default |-> NoLit]), !.name = IF @ = "" THEN "Q9" ELSE @]),
                  i, [ns[i] EXCEPT !.dirs = Append(@, DirIf("skip", LitVar("bad")))])) :
            i \in {j \in SelNodes(ns) : ns[DefOf(ns, j)].k = "OP" /\ ns[j].dirs = <<>>}, ty \in {<<"Boolean">>, <<"NN", "Int">>, <<"L", "Boolean">>}}
+  \* two operations sharing a fragment: the first declares the variable compatibly, the second does not / not at all
+  \cup {RW(r, "shared-fragment-second-operation",
+           AppendNodes(ns, << [Mk("OP", 0, "OkOp", "", "", <<>>, <<>>, "query", "") EXCEPT !.vdefs = <<[name |-> "zz", type |-> <<"Int">>, hasDefault |-> FALSE, default |-> NoLit]>>],
+                              [Mk("S", 0, "VF", "", "", <<>>, <<>>, "", Roots.query) EXCEPT !.parent = 1],
+                              [Mk("OP", 0, "BadOp", "", "", <<>>, <<>>, "query", "") EXCEPT !.vdefs = IF r = "all-variable-uses-defined" THEN <<>> ELSE <<[name |-> "zz", type |-> <<"String">>, hasDefault |-> FALSE, default |-> NoLit]>>],
+                              [Mk("S", 0, "VF", "", "", <<>>, <<>>, "", Roots.query) EXCEPT !.parent = 3],
+                              Mk("FRAG", 0, "VF", "", Roots.query, <<>>, <<>>, "", ""),
+                              [Mk("F", 0, "f", "", "", <<Arg("a", LitVar("zz"))>>, <<>>, "", Roots.query) EXCEPT !.parent = 5] >>)) :
+           r \in {"all-variable-usages-are-allowed", "all-variable-uses-defined"}}
+  \* an ill-typed literal placed after a variable in the same list
+  \cup {RW("values-of-correct-type", "list-element-after-variable",
+           SetAt(SetAt(ns, DefOf(ns, i), [ns[DefOf(ns, i)] EXCEPT !.vdefs = Append(@, [name |-> "lv", type |-> <<"Int">>, hasDefault |-> FALSE, default |-> NoLit]), !.name = IF @ = "" THEN "Q9" ELSE @]),
+                 i, [ns[i] EXCEPT !.args = <<Arg("i", [t |-> "obj", v |-> << <<"r", LitI(1)>>, <<"l", [t |-> "list", v |-> <<LitVar("lv"), LitS("oops")>>]>> >>])>>])) :
+           i \in {j \in KnownFields(ns) : ns[j].name = "h" /\ ns[DefOf(ns, j)].k = "OP"}}
   \cup {RW("all-variable-usages-are-allowed", "nested-input-value",
            SetAt(SetAt(ns, DefOf(ns, i), [ns[DefOf(ns, i)] EXCEPT !.vdefs = Append(@, [name |-> "bad", type |-> <<"String">>, hasDefault |-> FALSE, default |-> NoLit]), !.name = IF @ = "" THEN "Q9" ELSE @]),
                  i, [ns[i] EXCEPT !.args = <<Arg("i", lit)>>])) :
